@@ -64,7 +64,9 @@ class Static(BaseComponent):
         if self.path is not None:
             path = path[len(self.path) :]
 
-        path = unquote(path.strip('/'))
+        # (decode first: an encoded slash at the front would survive the
+        # strip and make the path absolute)
+        path = unquote(path).strip('/')
 
         if path:
             location = os.path.abspath(os.path.join(self.docroot, path))
